@@ -686,3 +686,136 @@ func c03Huge(c *Ctx) {
 }
 
 type big2 = big.Int
+
+// ---------------------------------------------------------------- C04R: a rejected newcomer that had already displaced victims
+
+func init() { registry["C04R"] = runC04Rejected }
+
+// runC04Rejected: a hot resident H (cost 6) and cold residents of cost 1 fill MaxCost = 10; a lukewarm newcomer X of
+// cost 7 displaces every cold resident and is then turned away because only H is left to compare with. The victims'
+// values and X's value must each exit exactly once. Variants: one victim K was itself written as a NEW item queued
+// right before X and is written again right after X (all three travel together through the write buffer), or K is
+// written again later with a value that ShouldUpdate would refuse for a stored key. After Close every accepted value
+// has been passed to OnExit exactly once.
+func runC04Rejected(c *Ctx) {
+	c.R.Rule = "directed: H hot cost 6 + n cold residents cost 1 (n in 2..4) fill MaxCost 10; newcomer X cost 7 (estimate 1) evicts all cold ones and is rejected; variant queued: Set(K,v1) Set(X) Set(K,v2) queued together behind a held applier; variant later: K written again after Wait, also with a value ShouldUpdate refuses for stored keys; then Close; every accepted value exits exactly once, refused ones never; distinct by (variant, n, ShouldUpdate)"
+	idx := 0
+	for rep := 0; rep < c.N(2, 10); rep++ {
+		for _, variant := range []string{"queued", "later", "later-refusable"} {
+			for ncold := 2; ncold <= 4; ncold++ {
+				idx++
+				if idx%c.NParts != c.Part {
+					continue
+				}
+				c04Rejected(c, variant, ncold, uint64(idx))
+			}
+		}
+	}
+}
+
+func c04Rejected(c *Ctx, variant string, ncold int, stream uint64) {
+	r := c.R
+	r.Eval(1)
+	name := fmt.Sprintf("c04r-%s-cold%d", variant, ncold)
+	c.J.Case(name)
+	cfg := lab.CacheCfg{NumCounters: 1000, MaxCost: 10, BufferItems: 1, IgnoreInternalCost: true, KeyKind: "uint64", NKeys: 8}
+	if variant == "later-refusable" {
+		cfg.ShouldUpdate = "parity"
+	}
+	l, err := lab.NewLab(cfg)
+	if err != nil {
+		r.Inconc(1)
+		return
+	}
+	defer l.Forget()
+	cl := l.NewClient()
+	closed := false
+	defer func() {
+		if !closed {
+			l.C.Close()
+		}
+	}()
+	type issued struct {
+		val      uint64
+		accepted bool
+		what     string
+	}
+	var all []issued
+	set := func(k int, cost int64, odd bool, what string) uint64 {
+		v := cl.NextValParity(k, odd)
+		ok := cl.Set(k, v, cost, 0)
+		all = append(all, issued{v, ok, what})
+		return v
+	}
+	const H, X, K = 0, 6, 5
+	set(H, 6, false, "hot resident")
+	cl.Wait()
+	l.C.Increment(l.Hashes[H][0], 10)
+	l.C.Increment(l.Hashes[X][0], 1)
+	nres := ncold
+	if variant == "queued" {
+		nres = ncold - 1 // K is the last cold one and is written together with X
+	}
+	for k := 1; k <= nres; k++ {
+		set(k, 1, false, "cold resident")
+		cl.Wait()
+	}
+	// pad with a resident of the remaining capacity so that the cache is exactly full when X arrives
+	pad := int64(10 - 6 - ncold)
+	if pad > 0 {
+		set(7, pad, false, "padding resident")
+		cl.Wait()
+	}
+	switch variant {
+	case "queued":
+		g := lab.NewGate(l)
+		set(H, 6, false, "overwrite of H that occupies the applier") // an update: accounted cost unchanged
+		if err := g.AwaitHeld(); err != nil {
+			r.Inconc(1)
+			g.Open()
+			return
+		}
+		set(K, 1, false, "K first write (new item, queued)")
+		set(X, 7, false, "newcomer X (queued)")
+		set(K, 1, false, "K second write (new item, queued behind X)")
+		g.Open()
+		l.SetHook(nil)
+		cl.Wait()
+	default:
+		set(X, 7, false, "newcomer X")
+		cl.Wait()
+		// one of the displaced keys is written again: with ShouldUpdate configured, the value is one that would be
+		// refused for a key that is still stored (it is not: the key was evicted, so this is a fresh insert)
+		set(1, 1, variant == "later-refusable", "displaced key written again")
+		cl.Wait()
+	}
+	snap := l.C.Snapshot()
+	_, xin := snap.KeyCosts[l.Hashes[X][0]]
+	r.Obs("c04r_cases", 1)
+	if xin {
+		r.Obs("c04r_newcomer_admitted", 1) // not the situation aimed at (estimates collided): still checked below
+	}
+	cl.Close()
+	closed = true
+	exits := map[uint64]int{}
+	for _, e := range l.CallbacksSince(0) {
+		if e.Kind == lab.EvOnExit {
+			exits[e.Val]++
+		}
+	}
+	for _, is := range all {
+		want := 0
+		if is.accepted {
+			want = 1
+		}
+		if exits[is.val] != want {
+			sig := "no-exit-by-clear-or-close"
+			if exits[is.val] > want {
+				sig = "double-exit"
+			}
+			r.Violate("C04/"+sig, fmt.Sprintf("[%s] value %#x (%s; Set returned %v) was passed to OnExit %d times by the time Close returned, want %d; newcomer admitted=%v", name, is.val, is.what, is.accepted, exits[is.val], want, xin), name)
+			return
+		}
+	}
+	r.DistinctKey("%s/x-admitted%v", name, xin)
+}
